@@ -205,23 +205,27 @@ func vfWireContains(wire []byte, needle []byte) string {
 	if bytes.Contains(wire, needle) {
 		return "raw"
 	}
-	for name, enc := range map[string]string{
-		"hex":       hex.EncodeToString(needle),
-		"base64":    base64.StdEncoding.EncodeToString(needle),
-		"base64raw": base64.RawStdEncoding.EncodeToString(needle),
-		"base64url": base64.RawURLEncoding.EncodeToString(needle),
-	} {
-		// base64 alignment: also look for the middle part of the encoding, which is alignment independent for long needles
-		if bytes.Contains(wire, []byte(enc)) {
-			return name
-		}
-		if len(enc) > 40 && bytes.Contains(wire, []byte(enc[4:len(enc)-4])) {
-			return name + "(partial)"
-		}
+	h := hex.EncodeToString(needle)
+	if bytes.Contains(wire, []byte(h)) || bytes.Contains(wire, []byte(strings.ToUpper(h))) {
+		return "hex"
 	}
-	upper := strings.ToUpper(hex.EncodeToString(needle))
-	if bytes.Contains(wire, []byte(upper)) {
-		return "HEX"
+	// base64: the needle may sit at any offset inside a longer encoded structure (an SSH key blob, a DER
+	// document), so for each of the three alignments take the characters that depend on the needle alone
+	for name, enc := range map[string]*base64.Encoding{"base64": base64.RawStdEncoding, "base64url": base64.RawURLEncoding} {
+		for k := 0; k < 3; k++ {
+			e := enc.EncodeToString(append(make([]byte, k), needle...))
+			lo := 0
+			if k > 0 {
+				lo = 2 // the first two characters also encode the k bytes in front
+				if k == 2 {
+					lo = 3
+				}
+			}
+			hi := len(e) - 2 // the last characters also encode what follows
+			if hi-lo >= 20 && bytes.Contains(wire, []byte(e[lo:hi])) {
+				return fmt.Sprintf("%s(offset %d)", name, k)
+			}
+		}
 	}
 	return ""
 }
